@@ -129,7 +129,13 @@ async fn run_real(line: &str) -> String {
                             break;
                         }
                     }
+                    // "<status>:<body hex>": that HTTP status with that body (error pages of any length and content)
+                    let custom = ph.split_once(':').map(|(st, hx)| (format!("{} Status", st), unhex(hx)));
                     let (status, body): (&str, Vec<u8>) = match ph {
+                        _ if custom.is_some() => {
+                            let (st, b) = custom.as_ref().unwrap();
+                            (st.as_str(), b.clone())
+                        }
                         "500" => ("500 Internal Server Error", b"oops".to_vec()),
                         "404" => ("404 Not Found", b"".to_vec()),
                         "garbage" => ("200 OK", b"<html>not bencode</html>".to_vec()),
@@ -148,10 +154,16 @@ async fn run_real(line: &str) -> String {
         };
         tokio::pin!(serve);
         let mut served = 0usize;
+        let mut dead = false;
         let verdict = loop {
             tokio::select! {
                 k = &mut serve, if served == 0 => served = k,
                 c = tokio::time::timeout(Duration::from_secs(20), rx.recv()) => break c,
+                _ = &mut run, if !dead => dead = true,          // the tracker task ended (or panicked) without a word
+            }
+            if dead {
+                // give a command already sent a moment to arrive, then give up
+                break tokio::time::timeout(Duration::from_millis(300), rx.recv()).await;
             }
         };
         reqs += served;
@@ -166,14 +178,14 @@ async fn run_real(line: &str) -> String {
                 break;
             }
             _ => {
-                cmds.push("NONE");
+                cmds.push(if dead { "DEAD" } else { "NONE" });
                 break;
             }
         }
         i += 1;
     }
     // after the answer the task is over: it ends by itself and asks nothing more
-    let done = tokio::time::timeout(Duration::from_secs(3), &mut run).await.is_ok();
+    let done = if run.is_finished() { true } else { tokio::time::timeout(Duration::from_secs(3), &mut run).await.is_ok() };
     let extra = match listener.as_ref() {
         Some(l) => tokio::time::timeout(Duration::from_millis(1500), l.accept()).await.is_ok(),
         None => false,
